@@ -524,7 +524,7 @@ def count_model_evidence(ctx, call, exp, ordered, tstrand):
 # -- workload -------------------------------------------------------------------------------------------------------------
 def run(ctx):
     rng = ctx.rng
-    for _ in range(ctx.budget(16000, 440000)):
+    for _ in range(ctx.budget(13000, 440000)):
         case = {"kind": "list", "source": "objects", "feats": G.feature_list(rng), "opts": G.list_options(rng)}
         info = execute(ctx, case)
         nt = info["gaps"] >= 1 and info["suppressed"] >= 1
